@@ -98,6 +98,54 @@ def observed(resp):
     return {"stage": "run-" + str(oc.get("k")), "fam": "", "pos": []}
 
 
+def file_pass(rep, d, tier, items):
+    """The shipped program reads its text from a FILE (another loader than the one the serve harness uses): for a sample of
+    the cases, under every line-end convention, it must report the stage and the positions the harness reported."""
+    import subprocess, concurrent.futures, re, shutil
+    from common import HARNESS
+    exe = os.path.join(HARNESS, "target", "debug", "rusty_basic_shipped")
+    if not os.path.exists(exe):
+        raise ToolError("the shipped binary was not built: " + exe)
+    root = os.path.join(d, "filefs")
+    shutil.rmtree(root, ignore_errors=True)
+    os.makedirs(root, exist_ok=True)
+    posre = re.compile(r"Position \{ row: (\d+), col: (\d+) \}")
+
+    def one(i):
+        text = items[i][1]
+        wd = os.path.join(root, "f%d" % i)
+        os.makedirs(wd, exist_ok=True)
+        with open(os.path.join(wd, "P.BAS"), "wb") as f:
+            f.write(text.encode("utf-8"))
+        env = {k: v for k, v in os.environ.items() if k not in ("SERVER_NAME", "PATH_TRANSLATED")}
+        env["RUST_BACKTRACE"] = "0"
+        try:
+            p = subprocess.run([exe, "P.BAS"], cwd=wd, input=b"", stdout=subprocess.PIPE, stderr=subprocess.PIPE, timeout=10, env=env)
+        except subprocess.TimeoutExpired:
+            return None
+        err = p.stderr.decode("utf-8", "replace")
+        stage = "parse" if "Could not parse" in err else "lint" if "Could not lint" in err else "run" if "Runtime error" in err else \
+                "panic" if "panicked at" in err else "none"
+        return {"stage": stage, "pos": [[int(a), int(b)] for a, b in posre.findall(err)]}
+
+    with concurrent.futures.ThreadPoolExecutor(8) as ex:
+        results = list(ex.map(one, range(len(items))))
+    shutil.rmtree(root, ignore_errors=True)
+    n = {"compared": 0, "same": 0, "skipped": 0}
+    for (feats, text, obs), got in zip(items, results):
+        if got is None or obs["stage"] not in ("parse", "lint", "run"):
+            n["skipped"] += 1       # a loop cut by the wall clock, or the harness run was not a located error
+            continue
+        n["compared"] += 1
+        if got["stage"] == obs["stage"] and got["pos"] == obs["pos"]:
+            n["same"] += 1
+            continue
+        rep.violation({"case": "the same text read from a file by the shipped program", "rendered_text": text, "observed_from_file": got,
+                       "observed_from_text": obs, "expected": "the same stage and the same positions: the text is the same"},
+                      set(feats) | {"what:file-differs"}, name="file")
+    return n
+
+
 def run(tier, replay):
     rep = Reporter("C11", tier, "model_checking")
     pool = Pool()
@@ -200,7 +248,16 @@ def run(tier, replay):
                        "observed": recs[i]["obs"], "judgement": what, "panic": (resp or {}).get("panic"),
                        "expected": "stage %s, family in %s, row of the statement, column inside it, call-site rows innermost first"
                                    % (c["stage"], c["fams"])}, feats, name=what.split()[0])
+    fstats = {}
+    if not replay:
+        # a sample for the file pass: every k-th case, so that every line-end convention, stage and fault kind is in it
+        k = max(1, len(built) // (1500 if tier == "thorough" else 400))
+        items = [({"eol:" + c["eol"], "stage:" + c["stage"], "fault:" + c["fault"]}, b["text"], recs[i]["obs"])
+                 for i, ((src, c), b) in enumerate(zip(allcases, built)) if i % k == 0]
+        items += [({"eof-fault:" + name}, t, observed(r)) for (name, final, t), r in zip(eof_texts, eof_resps)]
+        fstats = file_pass(rep, d, tier, items)
     coverage = {
+        "file_pass": fstats,
         "evaluations": len(recs), "distinct_nontrivial": len({b["text"] for b in built}),
         "rule": "TLC enumerates Diag.tla: %d cases exhaustively (wide: all %d faults = %d named + %d host statements x %d fault "
                 "expressions, call depth <= 1; deep: named faults x call depth x innermost block kind; both x joined/plain x 4 "
